@@ -363,8 +363,13 @@ Shift(op, x, y) ==
 
 (* ------------------------------------------------------------------ expression trees *)
 \* node: literal | [k |-> "un", op, a] | [k |-> "bin", op, a, b] | [k |-> "conv", ty, a]
+\*       | [k |-> "ref", i, a]  the identifier of the i-th constant declaration `const k<i> = <a>` of a program
+\*         (a = the declaration's expression, carried in the node).  Go spec, Constant declarations / Constant
+\*         expressions: an identifier denoting a constant IS that constant - the value and the (un)typedness of the
+\*         expression it was declared with, whatever else the program computes from it before or after.
 RECURSIVE Eval(_)
 Eval(t) == CASE t.k = "lit" -> EvalLit(t)
+             [] t.k = "ref" -> Eval(t.a)
              [] t.k = "un" -> Unary(t.op, Eval(t.a))
              [] t.k = "conv" -> IF t.ty \in BasicTypes THEN Conv(t.ty, Eval(t.a)) ELSE RAny("unknown-type")
              [] t.k = "bin" -> IF t.op \in {"<<", ">>"} THEN Shift(t.op, Eval(t.a), Eval(t.b)) ELSE Binary(t.op, Eval(t.a), Eval(t.b))
@@ -409,9 +414,11 @@ ShowLit(t) ==
                         ELSE IF t.n.s < 0 THEN Paren(HexFloat([n |-> t.n, e |-> t.e]) \o <<105>>) ELSE HexFloat([n |-> t.n, e |-> t.e]) \o <<105>>
     [] t.lk = "str" -> StrLit(t.s)
     [] t.lk = "bool" -> IF t.n.s # 0 THEN <<116,114,117,101>> ELSE <<102,97,108,115,101>>
+NameOf(i) == <<107>> \o NatBytes(i)                                            \* k1, k2, ...
 RECURSIVE Show(_)
-Operand(t) == IF t.k \in {"lit", "conv"} THEN Show(t) ELSE Paren(Show(t))
+Operand(t) == IF t.k \in {"lit", "conv", "ref"} THEN Show(t) ELSE Paren(Show(t))
 Show(t) == CASE t.k = "lit" -> ShowLit(t)
+             [] t.k = "ref" -> NameOf(t.i)
              [] t.k = "un" -> OpText(t.op) \o Operand(t.a)
              [] t.k = "conv" -> TypeName(t.ty) \o Paren(Show(t.a))
              [] t.k = "bin" -> Operand(t.a) \o <<32>> \o OpText(t.op) \o <<32>> \o Operand(t.b)
